@@ -222,6 +222,64 @@ func ruleL4(p *Prog) *RuleResult {
 				}
 			}
 		}
+		// the per-kind values may come from a method of an unexported interface that the three kinds
+		// implement (`counts[i], types[i] = d.frozenCountAndType()`): read each kind's method instead of a case
+		if len(codes) == 0 && len(counts) == 0 {
+			for _, b := range f.Blocks {
+				for _, ins := range b.Instrs {
+					call, ok := ins.(*ssa.Call)
+					if !ok || !call.Call.IsInvoke() || call.Call.Signature().Results().Len() != 2 || call.Referrers() == nil {
+						continue
+					}
+					// both results are stored into a []uint8 / []uint16 element
+					stored := 0
+					for _, r := range *call.Referrers() {
+						if ex, ok := r.(*ssa.Extract); ok && ex.Referrers() != nil {
+							for _, rr := range *ex.Referrers() {
+								if st, ok := rr.(*ssa.Store); ok {
+									if _, ok := st.Addr.(*ssa.IndexAddr); ok {
+										stored++
+									}
+								}
+							}
+						}
+					}
+					if stored < 2 {
+						continue
+					}
+					for _, k := range frozenKinds {
+						t := p.Type("roaring", k.typ)
+						if t == nil {
+							continue
+						}
+						sel := p.SSA.MethodSets.MethodSet(types.NewPointer(t)).Lookup(call.Call.Method.Pkg(), call.Call.Method.Name())
+						if sel == nil {
+							continue
+						}
+						m := p.SSA.MethodValue(sel)
+						if m == nil || m.Blocks == nil {
+							continue
+						}
+						for _, mb := range m.Blocks {
+							ret, ok := mb.Instrs[len(mb.Instrs)-1].(*ssa.Return)
+							if !ok || len(ret.Results) != 2 {
+								continue
+							}
+							for _, rv := range ret.Results {
+								switch basicKind(rv.Type()) {
+								case types.Uint8:
+									if c, ok := constIntVal(rv); ok {
+										codes[k.name] = c
+									}
+								case types.Uint16:
+									counts[k.name] = env().eval(rv)
+								}
+							}
+						}
+					}
+				}
+			}
+		}
 		for _, k := range frozenKinds {
 			sp := frozenSpec[k.name]
 			c := fmt.Sprintf("%s|%s code and count", fn, k.name)
